@@ -427,7 +427,7 @@ pub fn run(ctx: &Ctx) {
         Non-trivial = >= 2 distinct items and the two streams differ. Distinct = distinct serialised case. Two targeted generators search for ties between distinct items through the public API only: (dens-equal-r) per-item values read from one-bin sketches, (tie-hunt) 2^18 (quick) / 2^20 (thorough) items sorted by the sketcher's own two-item comparison, every adjacent pair presented in both orders. Two more sub-checks: (distinct-items) structured labels (small integers, byte-swapped forms, all-ones and neighbours, also under the no-op hasher) must give pairwise different single-item sketches whenever their hash values differ; (long-streams) 66 000 .. 140 000 calls on one instance and sketch sizes up to 110 000, two presentations; (run-of-repeats) one item streamed ~65 500 times in a row between the other items of a small set.");
     ctx.assume("SetSketch bookkeeping counters (get_low_sketch, get_nb_overflow) are not part of the sketch and are not compared here (they count events, not items)");
     super::run_fixed_tier(ctx, replay);
-    let (cases, max_m, max_n) = ctx.tier.pick((160_000, 512, 2000), (3_000_000, 4096, 20000));
+    let (cases, max_m, max_n) = ctx.tier.pick((160_000, 512, 2000), (1_200_000, 2048, 6000));
     ctx.drive("presentations", cases, 16, 1500, || strategy(max_m, max_n), eval);
     let (tcases, window) = ctx.tier.pick((64, 40_000), (1600, 120_000));
     ctx.drive("dens-equal-r", tcases, 16, 40, || tie_strategy(window), eval_tie);
